@@ -110,6 +110,12 @@ def jobs_for(tier, rnd):
             if G.well_formed(e, G.RULES_NULLABLE):
                 jobs.append((gid, G.describe(e, 'bytes'), TXB, {'bytes': True, 'stratum': 'byte-values'}))
                 gid += 1
+    # case-insensitive BYTES literals with bytes outside ASCII (the escaped pattern holds the raw byte)
+    TXH = G.texts('aA\xe9\xc9', 3)
+    for d in ['start = b"a\\xe9"i\n', 'start = [b"\\xe9"i, b"a"i]\n', 'start = (b"\\xe9a"i | b"\\xe9") >> b/[\\x00-\\xff]*/\n',
+              'start = [b"\\xe9"i*, Opt(b"\\xc9A")]\nignore b/\\x20+/\n']:
+        jobs.append((gid, d, TXH, {'bytes': True, 'stratum': 'byte-values'}))
+        gid += 1
     return jobs
 
 
